@@ -223,9 +223,12 @@ def gen_env(rng):
     return h
 
 
-def scenario(h):
+def scenario(h, slow=False):
+    """timing is never what C11 judges: every wait is generous (tagged replies within 20 s, 60 s
+    on a retry); a wait that still runs out makes the scenario a HARNESS failure (see observe)"""
+    T = 60000 if slow else 20000
     ops = [{"op": "open", "conn": "c"},
-           {"op": "send", "conn": "c", "data": "a0 LOGIN u@example.com pw\r\n", "until": "tag:a0"},
+           {"op": "send", "conn": "c", "data": "a0 LOGIN u@example.com pw\r\n", "until": "tag:a0", "timeout_ms": T},
            {"op": "dump"}]
     for i, cmd in enumerate(h):
         tag = "t%d" % i
@@ -235,22 +238,22 @@ def scenario(h):
             # the first login: GetUserDB opens the user's store again
             ops.append({"op": "restart"})
             ops.append({"op": "open", "conn": "c"})
-            ops.append({"op": "send", "conn": "c", "data": "%s LOGIN u@example.com pw\r\n" % tag, "until": "tag:" + tag})
+            ops.append({"op": "send", "conn": "c", "data": "%s LOGIN u@example.com pw\r\n" % tag, "until": "tag:" + tag, "timeout_ms": T})
             ops.append({"op": "dump"})
             continue
         if cmd[0] in ("DELIVER", "DELIVERSPAM"):
             l = "l%d" % i
             ops.append({"op": "lmtp_open", "conn": l, "separate_mgr": True})
             for data in ("LHLO x\r\n", "MAIL FROM:<a@example.com>\r\n", "RCPT TO:<u@example.com>\r\n", "DATA\r\n"):
-                ops.append({"op": "send", "conn": l, "data": data, "until": "lmtp:1"})
-            ops.append({"op": "send", "conn": l, "data": LMTP_MSG % ("X-Spam-Status: Yes, score=9\r\n" if cmd[0] == "DELIVERSPAM" else ""), "until": "lmtp:1", "timeout_ms": 8000})
-            ops.append({"op": "send", "conn": l, "data": "QUIT\r\n", "until": "lmtp:1"})
+                ops.append({"op": "send", "conn": l, "data": data, "until": "lmtp:1", "timeout_ms": T})
+            ops.append({"op": "send", "conn": l, "data": LMTP_MSG % ("X-Spam-Status: Yes, score=9\r\n" if cmd[0] == "DELIVERSPAM" else ""), "until": "lmtp:1", "timeout_ms": T})
+            ops.append({"op": "send", "conn": l, "data": "QUIT\r\n", "until": "lmtp:1", "timeout_ms": T})
             ops.append({"op": "dump"})
             continue
         if cmd[0] == "APPEND":
-            ops.append({"op": "c11_append", "conn": "c", "tag": tag, "line": C.latin(line), "literal": C.latin(MSG)})
+            ops.append({"op": "c11_append", "conn": "c", "tag": tag, "line": C.latin(line), "literal": C.latin(MSG), "timeout_ms": T})
         else:
-            ops.append({"op": "send", "conn": "c", "data": C.latin(line + b"\r\n"), "until": "tag:" + tag, "timeout_ms": 5000})
+            ops.append({"op": "send", "conn": "c", "data": C.latin(line + b"\r\n"), "until": "tag:" + tag, "timeout_ms": T})
         ops.append({"op": "dump"})
     return ops
 
@@ -311,33 +314,85 @@ def step_positions(h):
     return pos
 
 
+class HarnessFailure(Exception):
+    """the scenario could not be run as intended (setup not completed, a wait ran out, the driver
+    died): nothing about raven can be concluded from it"""
+
+
+def _ok(o):
+    return o.get("how") in ("ok", None) and "error" not in o
+
+
 def observe(h, res):
-    """-> (initial state, [ostep...]) or None when the run is unusable"""
+    """-> (initial state, [ostep...]); raises HarnessFailure when the run is not a valid observation"""
     obs = res.get("obs") or []
     if res.get("crashed") or len(obs) < 3:
-        return None
+        raise HarnessFailure("driver run unusable: %s" % (res.get("stderr", "") or "")[:200])
+    # setup: greeting, LOGIN answered OK, the account's store exists and has INBOX
+    if not _ok(obs[0]) or not C.unlatin(obs[0].get("recv", "")).startswith(b"* OK"):
+        raise HarnessFailure("no greeting (%s)" % obs[0].get("how"))
+    if not _ok(obs[1]) or b"a0 OK" not in C.unlatin(obs[1].get("recv", "")):
+        raise HarnessFailure("setup LOGIN not answered OK (%s)" % obs[1].get("how"))
     init = state_of_dump(obs[2])
-    if init is None:
-        return None
+    if init is None or b"INBOX" not in [b[0] for b in init[0]]:
+        raise HarnessFailure("first observation has no store with INBOX")
     steps = []
-    for i, (cmd, (jr, jd)) in enumerate(zip(h, step_positions(h))):
+    pos = step_positions(h)
+    for i, (cmd, (jr, jd)) in enumerate(zip(h, pos)):
         if jd >= len(obs):
-            break
+            raise HarnessFailure("driver output ends before step %d" % i)
+        first = pos[i - 1][1] + 1 if i else 3
+        # every auxiliary op of the step (restart, open, lmtp dialogue) must have completed
+        for j in range(first, jr):
+            o = obs[j]
+            if not _ok(o) or o.get("how") == "timeout":
+                raise HarnessFailure("step %d (%s): auxiliary op %d did not complete (%s)" % (i, cmd[0], j - first, o.get("how") or o.get("error")))
+        how = obs[jr].get("how")
+        if how in ("timeout", "write-error") and b"\x00PANIC" not in C.unlatin(obs[jr].get("recv", "")):
+            raise HarnessFailure("step %d (%s): no reply within the wait (%s)" % (i, show_cmd(cmd), how))
         if cmd[0] in ("DELIVER", "DELIVERSPAM"):
+            if not C.unlatin(obs[jr - 5].get("recv", "")).startswith(b"220") or not C.unlatin(obs[jr - 1].get("recv", "")).startswith(b"354"):
+                raise HarnessFailure("step %d: LMTP dialogue did not reach DATA" % i)
             rep = C.unlatin(obs[jr].get("recv", ""))
             rc, view = ("ROk" if rep.startswith(b"250") else "RNo" if rep[:1] in (b"4", b"5") else None), []
         else:
-            rc, view = parse_reply(obs[jr].get("recv", ""), obs[jr].get("how"), "t%d" % i)
+            rc, view = parse_reply(obs[jr].get("recv", ""), how, "t%d" % i)
+            if cmd[0] == "RESTART" and rc != "ROk":
+                raise HarnessFailure("step %d: LOGIN after the restart not answered OK" % i)
         st = state_of_dump(obs[jd])
         if st is None:
-            break
+            raise HarnessFailure("step %d: store dump unusable" % i)
         if rc is None:
-            steps.append((st, "RBad", view, "noreply:" + str(obs[jr].get("how"))))
+            steps.append((st, "RBad", view, "noreply:" + str(how)))
             break
         steps.append((st, rc, view, None))
         if rc == "RPanic":
             break
     return init, steps
+
+
+def execute(hs, stats):
+    """run the histories, each in a fresh driver; a harness failure is retried twice on a fresh
+    driver with longer waits and fewer drivers side by side. -> list of (h, init, steps) | None"""
+    out = [None] * len(hs)
+    todo = list(range(len(hs)))
+    for attempt in range(3):
+        if not todo:
+            break
+        slow = attempt > 0
+        results = C.run_many([scenario(hs[i], slow=slow) for i in todo], workers=12 if attempt == 0 else 4, timeout=1800)
+        failed = []
+        for i, r in zip(todo, results):
+            try:
+                init, steps = observe(hs[i], r)
+                out[i] = (hs[i], init, steps)
+            except HarnessFailure as e:
+                failed.append(i)
+                stats["harness_retries"].append("attempt %d: %s" % (attempt + 1, e))
+        todo = failed
+    stats["not_set_up"] += len(todo)
+    stats["scenarios"] += len(hs)
+    return out
 
 
 def coq_box(b):
@@ -407,15 +462,22 @@ def payload_of(h, k, steps, init, extra=None):
     return p
 
 
-def decide(chk, items, codes, stats, from_corpus=None):
-    """the decision rule of CONVENTIONS.md on every judged step"""
+def verdicts(h, steps, cl, k):
+    code = cl[k]
+    return bool(code & 1), bool(code & 2), CLS[(code >> 2) & 15], bool(code & 64)
+
+
+def decide(chk, items, codes, stats, confirm=True):
+    """the decision rule of CONVENTIONS.md on every judged step. Nothing is reported directly: a
+    candidate is re-run ALONE on a fresh driver first and reported only if it reproduces."""
+    cands = []   # (kind, what, payload, cls, h, k, predicate name)
     for (h, init, steps), cl in zip(items, codes):
         for k, code in enumerate(cl):
-            m_ok, s_ok, cls, valid = bool(code & 1), bool(code & 2), CLS[(code >> 2) & 15], bool(code & 64)
+            m_ok, s_ok, cls, valid = verdicts(h, steps, cl, k)
             stats["steps"] += 1
             nonascii = any(any(c > 127 for c in (a if isinstance(a, bytes) else a.encode("latin-1"))) for a in h[k][1:])
             if steps[k][3]:
-                chk.broken_obligation("no tagged reply to %r (%s)" % (show_cmd(h[k]), steps[k][3]), payload_of(h, k, steps, init))
+                cands.append(("broken", "no tagged reply to %r (%s)" % (show_cmd(h[k]), steps[k][3]), payload_of(h, k, steps, init), None, h, k, "noreply"))
                 continue
             if valid and not nonascii:
                 stats["valid_steps"] += 1
@@ -432,14 +494,12 @@ def decide(chk, items, codes, stats, from_corpus=None):
                         if not m_ok:
                             stats["model_diff_in_class"] += 1
                     else:
-                        stats["disagreements"] += 1
-                        chk.violation("after %r the implementation's state/result differs from the set semantics of C11 outside every listed finding class (model agrees: %s)"
-                                      % (show_cmd(h[k]), m_ok), payload_of(h, k, steps, init, {"model_agrees": m_ok}))
+                        cands.append(("violation", "after %r the implementation's state/result differs from the set semantics of C11 outside every listed finding class (model agrees: %s)"
+                                      % (show_cmd(h[k]), m_ok), payload_of(h, k, steps, init, {"model_agrees": m_ok}), None, h, k, "spec"))
                 elif not m_ok:
-                    stats["disagreements"] += 1
                     if cls is None:
-                        chk.broken_obligation("correspondence names no longer checks: implementation and model differ on %r (spec not violated: row order or cargo)" % show_cmd(h[k]),
-                                              payload_of(h, k, steps, init))
+                        cands.append(("broken", "correspondence names no longer checks: implementation and model differ on %r (spec not violated: row order or cargo)" % show_cmd(h[k]),
+                                      payload_of(h, k, steps, init), None, h, k, "model"))
                     else:
                         stats["model_diff_in_class"] += 1
             else:
@@ -448,21 +508,46 @@ def decide(chk, items, codes, stats, from_corpus=None):
                     if nonascii:
                         chk.notes.append("domain edge (non-ASCII bytes): model and implementation differ on %r" % show_cmd(h[k]))
                     else:
-                        stats["disagreements"] += 1
-                        chk.broken_obligation("correspondence names no longer checks: implementation and model differ on the malformed command %r" % show_cmd(h[k]),
-                                              payload_of(h, k, steps, init))
+                        cands.append(("broken", "correspondence names no longer checks: implementation and model differ on the malformed command %r" % show_cmd(h[k]),
+                                      payload_of(h, k, steps, init), None, h, k, "model"))
+    if not cands:
+        return
+    stats["candidates"] += len(cands)
+    cands = cands[:200]
+    if confirm:
+        prefixes = [list(c[4][:c[5] + 1]) for c in cands]
+        again = execute(prefixes, stats)
+        ok_items = [(i, it) for i, it in enumerate(again) if it is not None and len(it[2]) == len(prefixes[i])]
+        codes2 = {}
+        for j in range(0, len(ok_items), 60):
+            chunk = ok_items[j:j + 60]
+            cs, log = judge_all("C11confirm", [it for _, it in chunk])
+            if cs is None:
+                chk.broken_obligation("in-Coq evaluation of the C11 confirmation runs failed:\n" + log[-1500:])
+                return
+            for (i, it), cl in zip(chunk, cs):
+                codes2[i] = (it, cl)
+    for i, (kind, what, payload, cls, h, k, pred) in enumerate(cands):
+        if confirm:
+            if i not in codes2:
+                stats["not_reproduced"] += 1      # could not even be re-run: nothing is concluded
+                continue
+            (h2, init2, steps2), cl2 = codes2[i]
+            m2, s2, _, _ = verdicts(h2, steps2, cl2, k)
+            still = {"spec": not s2, "model": not m2, "noreply": bool(steps2[k][3])}[pred]
+            if not still:
+                stats["not_reproduced"] += 1
+                continue
+            payload = payload_of(h2, k, steps2, init2, {"model_agrees": m2, "reproduced_alone_on_a_fresh_driver": True})
+        stats["disagreements"] += 1
+        if kind == "violation":
+            chk.violation(what, payload, cls=cls)
+        else:
+            chk.broken_obligation(what, payload)
 
 
 def run_histories(chk, hs, stats, pid_suffix=""):
-    results = C.run_many([scenario(h) for h in hs], workers=12, timeout=300)
-    items = []
-    for h, r in zip(hs, results):
-        o = observe(h, r)
-        if o is None:
-            chk.broken_obligation("driver run unusable for a C11 history: %s" % (r.get("stderr", "")[:300]), {"suite": "names", "history": [[c[0]] + [C.latin(a) for a in c[1:]] for c in h]})
-            continue
-        init, steps = o
-        items.append((h, init, steps))
+    items = [it for it in execute(hs, stats) if it is not None]
     out = []
     for i in range(0, len(items), 60):
         chunk = items[i:i + 60]
@@ -509,7 +594,7 @@ def load_corpus():
 
 
 def new_stats():
-    return {"steps": 0, "valid_steps": 0, "clean_steps": 0, "clean_kinds": set(), "class_steps": {}, "outside_domain_steps": 0,
+    return {"harness_retries": [], "not_set_up": 0, "scenarios": 0, "candidates": 0, "not_reproduced": 0, "steps": 0, "valid_steps": 0, "clean_steps": 0, "clean_kinds": set(), "class_steps": {}, "outside_domain_steps": 0,
             "disagreements": 0, "model_diff_in_class": 0}
 
 
@@ -522,11 +607,6 @@ def run(chk):
     if codes is None:
         return
     decide(chk, items, codes, stats)
-    for (f, d, h), (hh, init, steps), cl in zip(corpus, items, codes):
-        k = d.get("step", len(h) - 1)
-        if d.get("class") and k < len(cl):
-            if (cl[k] & 2) and CLS[(cl[k] >> 2) & 15] == d["class"]:
-                chk.notes.append("corpus witness %s: the implementation now satisfies the spec at the recorded step" % os.path.basename(f))
     nlike = 0
     # 3. generated histories
     quick = chk.tier == "quick"
@@ -546,6 +626,19 @@ def run(chk):
         for k in range(len(steps)):
             if h[k][0] in ("CREATE", "DELETE", "RENAME", "SUBSCRIBE", "UNSUBSCRIBE", "APPEND") and steps[k][1] == "ROk":
                 distinct.add((tuple(b[0] for b in (steps[k - 1][0][0] if k else init[0])), h[k]))
+    # harness health: a scenario that could not be set up says nothing about raven
+    chk.cov["scenarios_run"] = stats["scenarios"]
+    chk.cov["scenarios_retried_after_harness_failure"] = len(stats["harness_retries"])
+    chk.cov["scenarios_not_set_up_after_3_attempts"] = stats["not_set_up"]
+    chk.cov["candidate_reports"] = stats["candidates"]
+    chk.cov["candidates_not_reproduced_alone_on_a_fresh_driver (dropped)"] = stats["not_reproduced"]
+    if stats["harness_retries"]:
+        chk.notes.append("harness: %d scenario run(s) repeated on a fresh driver (first reasons: %s)" % (len(stats["harness_retries"]), "; ".join(stats["harness_retries"][:3])))
+    if stats["not_set_up"] > max(3, 0.05 * stats["scenarios"]):
+        chk.broken_obligation("harness cannot run: %d of %d scenarios could not be set up after 3 attempts (%s)" % (stats["not_set_up"], stats["scenarios"], "; ".join(stats["harness_retries"][-3:])),
+                              {"suite": "harness", "not_set_up": stats["not_set_up"], "scenarios": stats["scenarios"]})
+    elif stats["not_set_up"]:
+        chk.notes.append("harness: %d of %d scenarios could not be set up after 3 attempts and were left out (not a finding about raven)" % (stats["not_set_up"], stats["scenarios"]))
     chk.cov["evaluations"] = stats["steps"] + nlike
     chk.cov["histories"] = len(items)
     chk.cov["steps_in_domain"] = stats["valid_steps"]
@@ -576,12 +669,12 @@ def replay(path):
         print(json.dumps(d, indent=1))
         return 0
     h = [tuple([c[0]] + [C.unlatin(a) for a in c[1:]]) for c in d["history"]]
-    r = C.run_ops(scenario(h))
-    o = observe(h, r)
-    if o is None:
-        print("run unusable", r.get("stderr"))
+    r = C.run_ops(scenario(h, slow=True), timeout=1800)
+    try:
+        init, steps = observe(h, r)
+    except HarnessFailure as e:
+        print("harness failure, nothing concluded:", e)
         return 1
-    init, steps = o
     codes, log = judge_all("C11replay", [(h, init, steps)])
     for k, s in enumerate(steps):
         code = codes[0][k] if codes else -1
